@@ -5,12 +5,12 @@
 # directory, and records the outcome in seeded/<id>/result.json.
 set -u
 export GOFLAGS=-mod=mod GOPROXY=off
-WT=/tmp/w/seedall-repo; OUT=/tmp/w/seedall-out
+WT=/tmp/w/seedall-repo-$$; OUT=/tmp/w/seedall-out-$$
 git -C /repo worktree remove --force $WT 2>/dev/null; rm -rf $WT $OUT; mkdir -p $OUT /tmp/w
 git -C /repo worktree add -q --detach $WT HEAD || exit 2
 # frozen copies of the verifier, the ledgers and the other inputs of a check, so that
 # work going on in /verif does not disturb the run
-SNAP=/tmp/w/seedall-verif; rm -rf $SNAP; mkdir -p $SNAP/bin
+SNAP=/tmp/w/seedall-verif-$$; rm -rf $SNAP; mkdir -p $SNAP/bin
 (cd /verif/engine && go build -o $SNAP/bin/gocv ./cmd/gocv) || exit 2
 cp -r /verif/baseline /verif/props /verif/speclib /verif/witness /verif/known_findings.json $SNAP/
 ids="$*"; [ -z "$ids" ] && ids=$(ls /verif/seeded)
